@@ -301,11 +301,19 @@ class RecUser(CfdpUserBase):
         for hk in self.hooks:
             hk(self.ent, item)
 
+    def _keep(self, tid) -> None:
+        """The user keeps the TransactionId OBJECT it was handed (a history of transactions); what it said at that moment
+        must stay what it says (checked after every handler call)."""
+        if tid is not None and len(self.w.kept_tids) < 64:
+            self.w.kept_tids.append((tid, tid_t(tid), self.ent.name))
+
     def transaction_indication(self, transaction_indication_params):
         p = transaction_indication_params
+        self._keep(p.transaction_id)
         self._rec("transaction", tid_t(p.transaction_id), tid_t(p.originating_transaction_id))
 
     def eof_sent_indication(self, transaction_id):
+        self._keep(transaction_id)
         self._rec("eof_sent", tid_t(transaction_id))
 
     def transaction_finished_indication(self, params):
@@ -733,6 +741,7 @@ class World:
         self.pending = 0  # queued non-poll events
         self.pacing = "regular"
         self.lazy_ms = 4000
+        self.kept_tids: list = []
         # transaction status the history shell reports when it acknowledges a PDU of a closed transaction: TERMINATED
         # (it keeps a history), or UNDEFINED / UNRECOGNIZED (CFDP 4.7.2 for an entity that keeps none)
         self.closed_status = TransactionStatus.TERMINATED
@@ -988,7 +997,12 @@ class World:
         rec.post = Snap(h)
         # harness invariant of every check: the public packet counter tells the truth - what it announced after the call is
         # what could be fetched (queue empty before the call), and it reads 0 once everything is fetched
-        if n_announced is not None and rec.exc is None and (n_announced != n_fetched or h.num_packets_ready != 0):
+        for obj, was, who in self.kept_tids:
+            if tid_t(obj) != was:
+                self.violate("indication_object_mutated", f"{who}: the TransactionId object handed to the user as {was} now reads {tid_t(obj)}", "")
+                self.kept_tids = [x for x in self.kept_tids if x[0] is not obj]
+                break
+        if n_announced is not None and (rec.exc is None or rec.exc.is_lib) and (n_announced != n_fetched or h.num_packets_ready != 0):
             self.violate("packets_ready_counter", f"{ent.name}.{hk} op={op} in={rec.inb_kind} step={rec.pre.step}: announced={n_announced} "
                          f"fetched={n_fetched} after fetching all: num_packets_ready={h.num_packets_ready}", "")
         self.cur_call = None
